@@ -40,8 +40,11 @@ ExpectedClone(m, t, content) ==
       [] t.k = "var" -> SameContent(content, Wrap(<<>>, <<WComp(<<m.comps[t.c + 1].vars[t.v + 1]>>, <<>>)>>))
       [] t.k = "reset" -> SameContent(content, Wrap(<<>>, <<WComp(<<>>, <<m.comps[t.c + 1].resets[t.r + 1]>>)>>))
       [] t.k = "import" -> content = [url |-> m.comps[t.c + 1].imp, id |-> m.comps[t.c + 1].impId]
+\* a preparation that changes the content: a further unit child naming the units of child 1 again, with other attributes
+ApplyPre(m, ev) == IF "pre" \in DOMAIN ev /\ ev.pre.op = "dupUnitRef"
+                   THEN [m EXCEPT !.units[ev.pre.t.u + 1].kids = Append(@, Unit(@[1].ref, "micro", "3", "100", "dupid"))] ELSE m
 CloneProblems(ev) ==
-    LET m == ModelOf(ev.fv) IN
+    LET m == ApplyPre(ModelOf(ev.fv), ev) IN
     (IF ev.cloned /\ ExpectedClone(m, ev.t, ev.content) THEN {} ELSE {"clone content differs from the original's"})
     \cup (IF ev.parentless THEN {} ELSE {"clone has a parent"})
     \cup (IF ev.eqOC /\ ev.eqCO THEN {} ELSE {"clone does not equal the original"})
